@@ -20,7 +20,8 @@ Inductive ex :=
 | ETup (l : list ex)
 | ECmp (o : cop) (a b : ex)
 | EAnd (a b : ex) | EOr (a b : ex) | ENot (a : ex)
-| EBool (b : bool).
+| EBool (b : bool)
+| EIf (c a b : ex).          (* 'if c: return a' followed by 'return b' (or a if c else b): c's truth value decides *)
 
 (* def __op__(self, o): if not isinstance(o, <guard>): return NotImplemented ; return <body> *)
 Record meth := { m_guard : option string; m_body : ex }.
@@ -92,6 +93,7 @@ Fixpoint eval (e : ex) (self oth : val) : out :=
   | EOr a b => bool_of (eval a self oth) (fun x => if x then Val (VB true) else eval b self oth)
   | ENot a => bool_of (eval a self oth) (fun x => Val (VB (negb x)))
   | EBool b => Val (VB b)
+  | EIf c a b => bool_of (eval c self oth) (fun x => if x then eval a self oth else eval b self oth)
   end.
 
 Definition run_meth (m : meth) (self oth : val) : out :=
